@@ -381,6 +381,15 @@ pub fn run(args: &Args) -> i32 {
 }
 
 pub fn replay(rep: &mc_common::Value, name: &str, actions: &[String]) -> i32 {
+	if rep.get("aux").is_some() {
+		// scorer / sweeper exploration: small enough to re-run; report what it finds
+		let (_, v) = crate::checks::c12_aux::run_aux(false, 8);
+		for x in v.iter() {
+			println!("{} {}", x.identity, x.detail);
+		}
+		println!("scorer / sweeper exploration: {} finding(s)", v.len());
+		return if v.is_empty() { 0 } else { 1 };
+	}
 	if let (Some(kind), Some(hexs)) = (rep["kind"].as_str(), rep["bytes"].as_str()) {
 		let bytes: Vec<u8> = (0..hexs.len() / 2).filter_map(|i| u8::from_str_radix(&hexs[2 * i..2 * i + 2], 16).ok()).collect();
 		return match mc_common::par::guarded(|| probe_one(&kind.to_string(), &bytes)) {
